@@ -130,6 +130,11 @@ def lift_scalar(x, kind):
 
 def kind_of(dtype):
     try:
+        if dtype == jax.dtypes.float0:
+            return "f"          # float0 tangents (of integer inputs) carry no information: treated as real zeros
+    except Exception:
+        pass
+    try:
         if jax.dtypes.issubdtype(dtype, jax.dtypes.prng_key):
             return "k"
     except Exception:
@@ -144,6 +149,10 @@ def lift_array(x, dtype=None):
     a = np.asarray(x)
     if a.dtype == object:
         return a
+    if a.dtype == jax.dtypes.float0:
+        out = np.empty(a.shape, dtype=object)
+        out.fill(z3.RealVal(0))
+        return out
     kind = kind_of(dtype if dtype is not None else a.dtype)
     out = np.empty(a.shape, dtype=object)
     for idx in np.ndindex(a.shape):
@@ -897,15 +906,41 @@ def r_slice(ctx, eqn, a):
 
 @rule("pad")
 def r_pad(ctx, eqn, a, pv):
+    """lax.pad: interior padding between elements, then low/high padding (negative = crop)"""
     a = obj(a)
     pv = obj(pv).item()
     cfg = eqn.params["padding_config"]
-    if any(i != 0 for _, _, i in cfg) or any(lo < 0 or hi < 0 for lo, hi, _ in cfg):
-        raise Unsupported("pad with interior/negative padding")
-    out_shape = tuple(s + lo + hi for s, (lo, hi, _) in zip(a.shape, cfg))
-    out = np.empty(out_shape, dtype=object)
-    out.fill(pv)
-    out[tuple(slice(lo, lo + s) for s, (lo, _, _) in zip(a.shape, cfg))] = a
+    out = a
+    for ax, (lo, hi, interior) in enumerate(cfg):
+        n = out.shape[ax]
+        # interior
+        if interior > 0 and n > 1:
+            m = n + (n - 1) * interior
+            shp = list(out.shape)
+            shp[ax] = m
+            tmp = np.empty(shp, dtype=object)
+            tmp.fill(pv)
+            idx = [slice(None)] * out.ndim
+            idx[ax] = slice(0, m, interior + 1)
+            tmp[tuple(idx)] = out
+            out = tmp
+        n = out.shape[ax]
+        # low / high (negative crops)
+        start = max(0, -lo)
+        stop = n - max(0, -hi)
+        idx = [slice(None)] * out.ndim
+        idx[ax] = slice(start, max(start, stop))
+        out = out[tuple(idx)]
+        plo, phi = max(0, lo), max(0, hi)
+        if plo or phi:
+            shp = list(out.shape)
+            shp[ax] = out.shape[ax] + plo + phi
+            tmp = np.empty(shp, dtype=object)
+            tmp.fill(pv)
+            idx = [slice(None)] * out.ndim
+            idx[ax] = slice(plo, plo + out.shape[ax])
+            tmp[tuple(idx)] = out
+            out = tmp
     return out
 
 
@@ -1118,7 +1153,8 @@ def _cum(f):
             i0 = [slice(None)] * a.ndim
             i1 = [slice(None)] * a.ndim
             i0[ax], i1[ax] = k, kp
-            out[tuple(i0)] = ew(f)(ctx, eqn, out[tuple(i1)], a[tuple(i0)])
+            res = ew(f)(ctx, eqn, out[tuple(i1)], a[tuple(i0)])
+            out[tuple(i0)] = res.item() if isinstance(res, np.ndarray) and res.ndim == 0 else res
         return out
     return r
 
@@ -1594,7 +1630,7 @@ def r_bitcast(ctx, eqn, a):
     return ew(lambda x: f(unlog(x)))(ctx, eqn, a)
 
 
-@rule("empty")
+@rule("empty", "empty2")
 def r_empty(ctx, eqn, *a):
     v = eqn.outvars[0]
     return fresh_like(v.aval.shape, v.aval.dtype, f"uninit{next(ctx.counter)}")
@@ -1769,11 +1805,12 @@ def make_jaxpr(fn, *example_args, **example_kwargs):
 
 
 def sym_trace(fn, *example_args, prefix="a", logmode=False, sym_in=None, ctx=None, sprefix="s", scripted=None,
-              names=None):
+              names=None, pretraced=None):
     """Trace fn at the avals of example_args and evaluate the Jaxpr symbolically.
 
-    sym_in: optional list of object arrays to use for the flat inputs (else fresh variables)."""
-    closed, out_shape = jax.make_jaxpr(fn, return_shape=True)(*example_args)
+    sym_in: optional list of object arrays to use for the flat inputs (else fresh variables).
+    pretraced: (closed_jaxpr, out_shape) if the caller already ran jax.make_jaxpr."""
+    closed, out_shape = pretraced if pretraced is not None else jax.make_jaxpr(fn, return_shape=True)(*example_args)
     ctx = ctx or Ctx(logmode=logmode, prefix=sprefix, scripted=scripted)
     flat_in, in_tree = jax.tree_util.tree_flatten(example_args)
     if sym_in is None:
